@@ -30,6 +30,37 @@ CLAIMED['C11'] = dict(
    note=BASE_TB + ' numpy argsort modelled as stable sort (correspondence for the defective fast is_pareto_optimal restricted to tie-free inputs); np.linspace cut points taken from numpy.',
    technique='Rocq proof (loop invariant + maximal-dominator argument; induction over shards) + vm_compute correspondence',
    design='5/C11')
+SVC_NOTE = BASE_TB + (' The service model (Model/Service.v: 20 datastore primitives, 17 handler programs in a free monad, sequential interpreter) '
+  'is a hand transcription of vizier_service.py / ram_datastore.py / sql_datastore.py; it is tied on every run by replaying generated RPC '
+  'sequences on the real VizierServicer (RAM and SQLite) and comparing responses, the trace of datastore calls and the final stored state '
+  'inside coqc. Pythia is a scripted oracle; timestamps, messages and resource-name parsing are not modelled.')
+CLAIMED['C01'] = dict(
+   text=('Theorems for every state and argument (closed under the global context): a call on a missing study / missing trial, any mutation '
+         'of a non-active study, and Complete/Measure/Stop/CheckEarlyStop on a non-active trial end with the documented error class (or the '
+         'documented no-op) and leave the stored state syntactically unchanged; CompleteTrial/AddTrialMeasurement/StopTrial on an active trial '
+         'rewrite exactly that trial by a legal transition (trans_ok) and nothing else (C01_*_effect, C01_rewrite_is_local). PARTIAL: the '
+         'lifecycle frame for SuggestTrials, CreateTrial, Delete*, UpdateMetadata, CheckEarlyStop and the refinement to a reference model are '
+         'decided by the correspondence + per-step monitor (legal transitions, immutability, illegal-call table from the docstrings), not by a theorem.'),
+   note=SVC_NOTE, technique='Rocq proof (symbolic execution of handler programs) + trace-level correspondence', design='5/C01')
+CLAIMED['C02'] = dict(
+   text=('Theorems: id allocation max+1 always succeeds, is larger than every id present and raises the maximum by one (C02_fresh_ids, '
+         'C02_max_id_bounds_all); an unfinished operation of the same worker is returned unchanged. PARTIAL: exact count / sticky / '
+         'three-source order / surplus queued are stated (C02_sticky_full) but decided by correspondence + monitor over generated histories '
+         'with over- and under-delivering algorithms, on RAM and SQLite.'),
+   note=SVC_NOTE, technique='Rocq proof (list lemmas on id allocation) + trace-level correspondence + monitor', design='5/C02')
+CLAIMED['C06'] = dict(
+   text=('Theorems: the failure continuation finish_op always ends the RPC with a DONE operation carrying the error and stores exactly it '
+         '(C06_failure_is_reported_and_stored); a worker is answered without reaching the algorithm only from a stored done=false operation '
+         '(C06_wedge_needs_unfinished_operation); a kernel-evaluated failing history is not wedged. PARTIAL: "no RPC ever leaves an unfinished '
+         'operation" (C06_never_wedged_full) is decided by correspondence + monitor (after every step: no unfinished suggestion operation, no '
+         'ACTIVE early-stopping operation, algorithm reached again). Defects found and repaired by fix: commits (see known_findings.json fixed).'),
+   note=SVC_NOTE, technique='Rocq proof + trace-level correspondence + fault-sequence monitor', design='5/C06')
+CLAIMED['C07'] = dict(
+   text=('Both backends are tied by trace-level correspondence to ONE model of the DataStore contract, so backend equivalence is equality of '
+         'two runs of one function (C07_same_calls_same_observations); theorem C07_operation_numbering_agrees covers the place where they '
+         'compute differently (len vs max). The same sequences are also replayed on RAM, in-memory SQLite and an SQLite file and compared '
+         'pairwise after every step. Two real divergences were found and repaired (fix: commits).'),
+   note=SVC_NOTE + ' Other SQL engines are not covered.', technique='refinement of both backends to one Rocq model + differential replay', design='5/C07')
 ALL = ['C%02d' % i for i in range(1, 21)]
 m = {
  'version': 1,
